@@ -199,8 +199,24 @@ const (
 	UseFree     = "free"
 )
 
+// PageInfo describes one reachable tree page (head page of a possibly multi-page allocation).
+type PageInfo struct {
+	ID       uint64
+	Kind     string // branch | leaf
+	Count    int
+	Overflow uint32
+	Children []uint64 // branch: child page ids, in element order
+	// leaf: index of each element that is a (non-inline) bucket entry and the root page it points to
+	BucketElems []int
+	BucketRoots []uint64
+	// InlineBucketElems: indices of leaf elements holding an inline bucket
+	InlineBucketElems []int
+	Depth             int
+}
+
 // State is the full decoding of the database state a meta describes.
 type State struct {
+	Pages     map[uint64]*PageInfo
 	Meta      Meta
 	PageSize  int
 	Root      *Bucket
@@ -233,7 +249,7 @@ func (s *State) PageSet() []uint64 {
 
 // Decode walks the state described by meta m.
 func (im *Image) Decode(m *Meta) *State {
-	s := &State{Meta: *m, PageSize: im.PageSize}
+	s := &State{Meta: *m, PageSize: im.PageSize, Pages: map[uint64]*PageInfo{}}
 	ps := uint64(im.PageSize)
 	hwm := m.Pgid
 	if hwm > uint64(len(im.Data))/ps+1<<20 { // absurd
@@ -283,9 +299,10 @@ func (im *Image) Decode(m *Meta) *State {
 }
 
 type decoder struct {
-	im  *Image
-	s   *State
-	hwm uint64
+	im      *Image
+	s       *State
+	hwm     uint64
+	curLeaf *PageInfo
 }
 
 func (d *decoder) page(id uint64) []byte {
@@ -370,8 +387,12 @@ func (d *decoder) walk(id uint64, lo, hi []byte, depth int) []KV {
 		return nil
 	}
 	b = b[:span]
+	pi := &PageInfo{ID: id, Kind: use, Count: count, Overflow: overflow, Depth: depth}
+	s.Pages[id] = pi
 	if flags == FlagLeaf {
-		return d.leaf(b, id, count, lo, hi, depth)
+		d.curLeaf = pi
+		r := d.leaf(b, id, count, lo, hi, depth)
+		return r
 	}
 	if count == 0 {
 		s.prob("bounds", id, "branch page with zero elements")
@@ -395,6 +416,7 @@ func (d *decoder) walk(id uint64, lo, hi []byte, depth int) []KV {
 		}
 		keys = append(keys, b[eo+pos:eo+pos+ks])
 		kids = append(kids, kid)
+		pi.Children = append(pi.Children, kid)
 	}
 	for i := range keys {
 		if i > 0 && bytes.Compare(keys[i-1], keys[i]) >= 0 {
@@ -425,6 +447,8 @@ func (d *decoder) walk(id uint64, lo, hi []byte, depth int) []KV {
 
 func (d *decoder) leaf(b []byte, id uint64, count int, lo, hi []byte, depth int) []KV {
 	s := d.s
+	me := d.curLeaf
+	d.curLeaf = nil // nested calls (inline buckets, sub-trees) must not record into this page
 	if PageHdr+count*ElemSize > len(b) {
 		s.prob("bounds", id, "element array outside page")
 		return nil
@@ -460,6 +484,14 @@ func (d *decoder) leaf(b []byte, id uint64, count int, lo, hi []byte, depth int)
 				continue
 			}
 			sub := &Bucket{Root: le.Uint64(v[0:]), Seq: le.Uint64(v[8:])}
+			if me != nil {
+				if sub.Root == 0 {
+					me.InlineBucketElems = append(me.InlineBucketElems, i)
+				} else {
+					me.BucketElems = append(me.BucketElems, i)
+					me.BucketRoots = append(me.BucketRoots, sub.Root)
+				}
+			}
 			if sub.Root == 0 {
 				sub.Inline = true
 				s.NInline++
